@@ -9,56 +9,56 @@ REF = "Trusted base: Go runtime, math.Erfc/Sincos/Lgamma, math/big; the referenc
 # id -> (category, technique, text, note, design_ref)
 CHECKS = {
  "C01": ("exploration", "runtime monitor: reference-model oracle over recorded calls",
-         "Every generated (sequence, test, parameter) call of the five frequency/pattern tests is compared with an independent exact reference (integer counts, exact Q(a,x)) at tolerance 1e-8; 13 input families x lengths 100..33333 (10^6 thorough, 10^8 for the automatic block length); panics are events. Held on the executions observed, not a proof.", REF, "4/C01"),
+         "Every generated (sequence, test, parameter) call of the five frequency/pattern tests is compared with an independent exact reference (integer counts, exact Q(a,x)) at tolerance 1e-8; 14 input families x lengths 100..65537 (10^6 thorough), automatic block length at its switch points up to 10^8, very many blocks (n=2^25, m=2/4; 4*10^7 and 10^8 thorough); re-run thinned under a non-power-of-two CPU count and with a 32-bit build; panics are events. One known finding (KNOWN_FINDINGS.txt, key largeN-block). Held on the executions observed, not a proof.", REF, "4/C01"),
  "C02": ("exploration", "runtime monitor: reference-model oracle over recorded calls",
-         "Runs, runs-distribution and longest-run (ones/zeros) results compared with a reference computed from the exact run structure; class probabilities recomputed exactly by big-integer DP every run; regime edges 6271/6272/6273 and 749999/750000/750001, cut-off-straddling run lengths and class-edge blocks are generated on purpose.", REF, "4/C02"),
+         "Runs, runs-distribution and longest-run (ones/zeros) results compared with a reference computed from the exact run structure; class probabilities recomputed exactly by big-integer DP every run; regime edges 6271/6272/6273 and 749999/750000/750001, every runs-distribution cut-off switch length n=5*2^(k+2)+k-3 +-1, cut-off-straddling run lengths, class-edge blocks and inserted long runs (2^k-1, 2^k, 2^k+small, up to 65540) are generated on purpose; bit-level and byte-level entry points.", REF, "4/C02"),
  "C03": ("exploration", "runtime monitor: reference-model oracle over recorded calls",
-         "Binary derivative k in {3,7,15}, autocorrelation d in {1,2,8,16,32}, cumulative sums forward/backward compared with the reference; prescribed-excursion walks put the maximum partial sum on a log grid from 1 to n in both directions.", REF, "4/C03"),
+         "Binary derivative k in {3,7,15}, autocorrelation d in {1,2,8,16,32}, cumulative sums forward/backward compared with the reference; prescribed-excursion walks put the maximum partial sum on a log grid from 1 to n in both directions; lengths include the neighbourhoods (-1..+34) of 2^16, 2^20, 2^21 (to 2^22 thorough).", REF, "4/C03"),
  "C04": ("exploration", "runtime monitor: reference-model oracle + panic events, exhaustive small-block enumeration",
-         "Rank, linear complexity and Maurer results compared with GF(2) elimination / Berlekamp-Massey / direct Maurer references; every rank 0..32, every m-bit block for m<=16 (18 thorough) as single-block calls (exhaustive at those m), special blocks at m=500/1000/5000, pattern-starved Maurer initialisation; a panic on an admissible input is a violation.", REF, "4/C04"),
+         "Rank, linear complexity and Maurer results compared with GF(2) elimination / Berlekamp-Massey / direct Maurer references; every rank 0..32, every m-bit block for m<=16 (18 thorough) as single-block calls (exhaustive at those m), special blocks at m=500/1000/5000, pattern-starved Maurer initialisation, prescribed Maurer recurrence gaps (powers of two +-1 up to 65537; around 2^23 on 62 Mbit in thorough); a panic on an admissible input is a violation.", REF, "4/C04"),
  "C05": ("exploration", "runtime monitor: reference-model oracle (independent FFT validated by direct summation)",
-         "DFT test compared with the statistic computed from an independent FFT whose bins are validated against direct summation in the same run; N1 is an interval when a magnitude is within 1e-9*sqrt(n) of the threshold. n up to 131073 quick, 2^22 plus one 10^8-bit case (2^27 points) thorough.", REF, "4/C05"),
+         "DFT test compared with the statistic computed from an independent FFT whose bins are validated against direct summation in the same run; N1 is an interval when a magnitude is within 1e-9*sqrt(n) of the threshold. n up to 131073 quick; 2^22, smooth bin counts (s*2^k) up to 4.8 Mbit and one 10^8-bit case (2^27 points) thorough; re-run under a non-power-of-two CPU count.", REF, "4/C05"),
  "C06": ("exploration", "runtime monitor: exact-arithmetic oracle",
-         "Igamc compared with exact finite sums for Q(k/2,x) in 160-bit arithmetic at the property's own tolerance, plus exactly-1 for x<=0, range and monotonicity on (x, x(1+10^-u)) pairs; shapes k/2 for all k<=128 and seeded k<=10000, x dense around x=1, x=a and in both tails.", REF, "4/C06"),
+         "Igamc compared with exact finite sums for Q(k/2,x) in 160-bit arithmetic at the property's own tolerance, plus exactly-1 for x<=0, range and monotonicity on (x, x(1+10^-u)) pairs; shapes k/2 for all k<=128 and seeded k<=10000, x dense around x=1, x=a and in both tails; plus a concurrent hammer (8 goroutines, two per shape, shapes in arithmetic families with strides 1..2048) whose results must be bit-identical to solo calls.", REF, "4/C06"),
  "C12": ("exploration", "runtime monitor: exhaustive comparison with exact integer rule; reference binning",
-         "Threshold checked for every s in 1..10^6 (the whole quantified range) against the exact integer inequality; ThresholdQ against reference binning + exact Q(9/2,V/2) on seeded and edge-valued lists, each under 5 permutations (bit-identical).", REF, "4/C12"),
+         "Threshold checked for every s in 1..10^6 (the whole quantified range) against the exact integer inequality; ThresholdQ against reference binning + exact Q(9/2,V/2) on seeded and edge-valued lists, each under 5 permutations (bit-identical); a quarter of the evaluations follow a hostile out-of-domain call in the same process.", REF, "4/C12"),
  "C19": ("exploration", "runtime monitor: closed-form and direct-summation oracles",
-         "fft.Transform against closed forms (every impulse position and tone frequency for N<=2^8 quick / 2^10 thorough, seeded above), an independent FFT on all bins and direct summation; Inverse round trip; constructor contract for all n<=4096, seeded n, limits; wrong-length slices must be refused and left untouched. N up to 2^16 quick, 2^20 thorough.", REF, "4/C19"),
+         "fft.Transform against closed forms (every impulse position and tone frequency for N<=2^8 quick / 2^10 thorough, seeded above), an independent FFT on all bins and direct summation; Inverse round trip; constructor contract for all n<=4096, seeded n, limits; wrong-length slices must be refused and left untouched. N up to 2^16 quick, 2^20 thorough; re-run under a non-power-of-two CPU count (taskset) and, in thorough, with a 32-bit build.", REF, "4/C19"),
 }
 
 WF = "Trusted base: Go runtime (scheduler, race detector, deadlock detector), the harness's recording reader and registry wrappers (internal/mon), the reference decision rule (internal/oracle). randomness.TestMethodArr is the seam for runner stubs; no hook is compiled into /repo. Schedules covered are those produced by the stated GOMAXPROCS/taskset/delay plans; the evidence counts distinct ones."
 CHECKS.update({
  "C07": ("exploration", "runtime monitor: recorded sample/runner history + independent decision-rule model",
-         "The three sequential workflows run on streams that encode a chosen s x items result matrix (stub runners at the registry seam) covering every pass count for every item and the uniformity boundary on both sides, plus real-runner runs; verdict, error/verdict consistency, named item, sample splitting (history checker) and tail independence are decided per run.", WF, "4/C07"),
+         "The three sequential workflows run on streams that encode a chosen s x items result matrix (stub runners at the registry seam) covering every pass count for every item and the uniformity boundary on both sides, (including the float64 neighbours of the bin edges) plus real-runner runs, history chains (a failing/faulting/Fast run first, then an accepted stream in the same process, shuffled order) and device/pipe sources; verdict, error/verdict consistency, named item, sample splitting (history checker) and tail independence are decided per run.", WF, "4/C07"),
  "C08": ("exploration", "runtime monitor: differential history check under schedule perturbation + Go race detector",
-         "Each Fast workflow is run repeatedly on verdict-sensitive streams under seeded delays in Read/runners, GOMAXPROCS 1..16 and 1/2/3/16 workers (taskset) and compared with the sequential run on the same bytes; every judged sample must be one stream chunk judged once by the expected items; a share of the runs is executed in a -race build and DATA RACE reports are violations.", WF, "4/C08"),
+         "Each Fast workflow is run repeatedly on verdict-sensitive streams under seeded delays in Read/runners, GOMAXPROCS 1..16 and 1/2/3/16 workers (taskset) and compared with the sequential run on the same bytes; every judged sample must be one stream chunk judged once by the expected items; also with stalling sources (1..150 empty reads; one 10 s stall), a slow source, seekable reader types at non-zero positions and history pre-steps; a share of the runs is executed in a -race build and DATA RACE reports are violations.", WF, "4/C08"),
  "C09": ("fault_enumeration", "runtime monitor: fault injection at the source + Go deadlock detector + goroutine census",
-         "Source failures are enumerated over offsets (0,1,B+-1, sample boundaries +-1, last sample, seeded) x 4 failure kinds x sticky/transient x 7 workflow functions; each run must return (hang decided by the runtime's deadlock detector in a plain child), false, non-nil error, no blocked goroutine left, bounded events after the fault; a share re-runs under -race.", WF, "4/C09"),
+         "Source failures are enumerated over offsets (0,1,B+-1, sample boundaries +-1, last sample, round absolute offsets, seeded) x failure kinds (EOF, unexpected EOF, custom, temporary-class/EAGAIN, error together with a partial read) x sticky/transient x 7 workflow functions, under whole and short reads, including 8*10^6-byte single-shot requests; judged samples must still be stream chunks; each run must return (hang decided by the runtime's deadlock detector in a plain child), false, non-nil error, no blocked goroutine left, bounded events after the fault; a share re-runs under -race.", WF, "4/C09"),
  "C10": ("exploration", "runtime monitor: exactly-once / no-stale sample history checker over read-size plans",
-         "Each workflow is run on the same bytes under whole, 1-byte, prime, random and boundary-straddling read plans; the history checker demands that every judged sample is exactly one chunk of consecutive fresh stream bytes, judged once; verdict and named item must agree across plans; Fast variants also under delay plans and -race.", WF, "4/C10"),
+         "Each workflow is run on the same bytes under whole, 1-byte, prime, random and boundary-straddling read plans; the history checker demands that every judged sample is exactly one chunk of consecutive fresh stream bytes, judged once; verdict and named item must agree across plans, also when the final Read returns data together with io.EOF, through bytes.Reader/os.File/bufio/LimitedReader at non-zero start positions, and for single-shot requests up to 2^25+ bytes; Fast variants also under delay plans and -race.", WF, "4/C10"),
  "C14": ("exploration", "runtime monitor: end-to-end verdict observation on degenerate sources (child process per batch)",
-         "All 256 stuck-at streams and 200+ short-cycle streams (seeded and adversarial period contents) through the real periodic workflows, a rotating subset (all in thorough) through the 10^6-bit workflows, SingleDetect on all-zero/all-one at every length 16..4096: must return, reject, and carry an error; panics in worker goroutines are attributed by the child-process protocol.", WF, "4/C14"),
+         "All 256 stuck-at streams and 200+ short-cycle streams (seeded and adversarial period contents) through the real periodic workflows, a rotating subset (all in thorough) through the 10^6-bit workflows, SingleDetect on all-zero/all-one at every length 16..4096 and at 2*10^8 / 2^28 bytes, stuck-at data behind an accepted prefix of seekable readers, and a 32-bit build of the harness for the small scenarios: must return, reject, and carry an error; panics in worker goroutines are attributed by the child-process protocol.", WF, "4/C14"),
 })
 
 CHECKS.update({
  "C11": ("exploration", "runtime monitor: reference-model oracle + consumption monitor on the reader",
-         "SingleDetect on every length 0..4096 x four content families plus m-discriminating contents (found by bias scanning and by construction) around the 320-bit and 10240-bit switches; oracle = reference poker with the length-appropriate m; the recording reader checks that exactly numByte bytes are consumed, also under short reads.", REF, "4/C11"),
+         "SingleDetect on every length 0..4096 x four content families plus m-discriminating contents (found by bias scanning and by construction) around the 320-bit and 10240-bit switches; oracle = reference poker with the length-appropriate m; the recording reader checks that exactly numByte bytes are consumed, also under short reads; 70000 repeated calls in one process must keep deciding alike.", REF, "4/C11"),
  "C15": ("exploration", "runtime monitor: differential comparison of entry points (bit-identical)",
-         "On each generated byte string every byte-level entry point is compared bit for bit with the bit-level one on the harness's own MSB-first expansion, every registry runner with the standard's default, Round15/Round12 with the runners, the file loader with the expansion; registry order is identified on inputs where all fifteen defaults differ.", "Trusted base: the harness's MSB-first expansion; Go float64 equality. No reference statistics involved.", "4/C15"),
+         "On each generated byte string every byte-level entry point is compared bit for bit with the bit-level one on the harness's own MSB-first expansion, every registry runner with the standard's default, Round15/Round12 with the runners, the file loader with the expansion (also for contents that look like another format and through symbolic links); registry order is identified on inputs where all fifteen defaults differ; cases run concurrently with mixed lengths in one process.", "Trusted base: the harness's MSB-first expansion; Go float64 equality. No reference statistics involved.", "4/C15"),
  "C16": ("exploration", "runtime monitor: invariant predicates on every result",
-         "Range/finite/P-Q-relation/Pass predicates evaluated on every result of every test and registry runner over 26 extreme families x lengths 100..10^6 bits (10^7 thorough); panics are violations.", "Predicates only; trusted base is the Go runtime.", "4/C16"),
+         "Range/finite/P-Q-relation/Pass predicates evaluated on every result of every test and registry runner over 28 extreme families x lengths 100..10^6 bits (10^7 thorough), on inputs tuned so that each runner's P lands around 0.01, on 4400 generic inputs through all runners, and on the inputs found by a needle search for P closest to 0.01 in the (n, excursion) and (n, ones) planes; panics are violations.", "Predicates only; trusted base is the Go runtime.", "4/C16"),
  "C17": ("exploration", "runtime monitor: metamorphic relations",
          "Complement, reversal, rotation, block permutation and tail rewriting applied to generated sequences; the library's result on the transformed input must match its result on the original within 1e-8 (with the stated Q/variant swaps).", "Metamorphic: the library is compared with itself; trusted base is the transformation code in the harness.", "4/C17"),
  "C18": ("exploration", "runtime monitor: input snapshots, solo-vs-concurrent differential, Go race detector",
-         "Input (and canary-filled spare capacity) snapshots around every call, repeat-call equality, 2/8/64 goroutines on shared and private buffers compared with solo results, and the same mixes in a -race build with DATA RACE reports counted.", "Trusted base: Go race detector (reports races of observed executions only).", "4/C18"),
+         "Input (and canary-filled spare capacity) snapshots around every call, repeat-call equality, a soak of 70000 repeated calls per cheap entry point, weak-cache-key adversarial pairs (same prefix/suffix, same CRC-64/CRC-32/Adler-32, buffer re-use), 2/8/64 goroutines on shared and private buffers and mixed input lengths at once compared with solo results, and the same mixes in a -race build with DATA RACE reports counted.", "Trusted base: Go race detector (reports races of observed executions only).", "4/C18"),
 })
 
 TOOLS = "Trusted base: Go toolchain (build, race detector, deadlock detector), strace/taskset as perturbation, the library's own functions as the reference for report values (C01-C05 decide those), the header-label parser in the harness. The only in-package instrumentation is /verif/overlay/rddetector/zz_verif_test.go injected with go test -overlay (tag verif); /repo is never written."
 CHECKS.update({
  "C13": ("exploration", "runtime monitor: exactly-once row checker + label-driven column oracle over real reports",
-         "Reports produced by the built rddetector binary (s in {1,2,7,40}, nested dirs, .dat, decoys, duplicate names, -n 1..64, GOMAXPROCS 1/4/16, strace-delayed report writes, -race build) and by the three worker functions driven in-package on real channels are checked: termination, header, one row per sample file, column count, every value against the library call named by that column's label.", TOOLS, "4/C13"),
+         "Reports produced by the built rddetector binary (s in {1,2,7,40}, nested and suffix-named dirs, .dat, decoys, duplicate and hostile file names, -n 1..64, flag order/spelling, GOMAXPROCS 1/4/16, four process environments, strace-delayed report writes, -race build) and by the three worker functions driven in-package on real channels are checked: termination, header, one row per sample file, column count, every value against the library call named by that column's label.", TOOLS, "4/C13"),
  "C20": ("exploration", "runtime monitor: file-system post-state checker",
-         "The built rdgen is run in fresh scratch directories over s, n, -o variants, CPU counts (taskset), GOMAXPROCS, strace delays and a -race build; the post-state must be exactly the requested files of the requested size with pairwise different contents inside the requested directory and nothing elsewhere; rddetector must accept the directory as s samples of n bits for the supported sizes.", TOOLS, "4/C20"),
+         "The built rdgen is run in fresh scratch directories over s, n, -o shapes (relative, nested, absolute, pre-populated, trailing slash, %, spaces, unicode, dash, symlinked, re-used by an earlier run), CPU counts (taskset), GOMAXPROCS, four process environments, strace delays and a -race build; the post-state must be exactly the requested files of the requested size with pairwise different contents inside the requested directory and nothing elsewhere; rddetector must accept the directory as s samples of n bits for the supported sizes.", TOOLS, "4/C20"),
 })
 
 PENDING = {
